@@ -83,6 +83,11 @@ func (y *yieldResolver) LeaveNode(n ast.Vertex) {
 // c11Pipeline: parse -> print -> dump(tokens+positions) -> traverse+resolve; returns every observation as
 // one string. s == nil: sequential baseline (no yields).
 func c11Pipeline(s *sched.Sched, j c11Job, rs c11Res) (out string) {
+	return c11PipelineBuf(s, j, rs, nil)
+}
+
+// c11PipelineBuf: the pipeline on the caller's buffer buf (nil: a private copy of the source).
+func c11PipelineBuf(s *sched.Sched, j c11Job, rs c11Res, buf []byte) (out string) {
 	defer func() {
 		if r := recover(); r != nil {
 			if _, ok := r.(sched.Abort); ok {
@@ -93,6 +98,9 @@ func c11Pipeline(s *sched.Sched, j c11Job, rs c11Res) (out string) {
 	}()
 	var errs []string
 	src := []byte(j.Src)
+	if buf != nil {
+		src = buf
+	}
 	root, err := parser.Parse(src, conf.Config{Version: parseVer(j.Ver), ErrorHandlerFunc: func(e *errors.Error) {
 		errs = append(errs, e.String())
 		if s != nil {
@@ -207,10 +215,20 @@ type c11Case struct {
 func c11Bodies(sc c11Scenario, rs c11Res, outs []string) func() []func(s *sched.Sched) {
 	return func() []func(s *sched.Sched) {
 		var bs []func(s *sched.Sched)
+		// the inputs are different, but they are neighbours in one buffer of the caller (read from one file, cut from one
+		// request): every input slice has the next input behind its end, within its capacity
+		var shared []byte
+		for _, j := range sc.Jobs {
+			shared = append(shared, j.Src...)
+		}
+		shared = append(make([]byte, 0, len(shared)+64), shared...)
+		off := 0
 		for i, j := range sc.Jobs {
 			i, j := i, j
+			buf := shared[off : off+len(j.Src)]
+			off += len(j.Src)
 			outs[i] = "DID NOT FINISH"
-			bs = append(bs, func(s *sched.Sched) { outs[i] = c11Pipeline(s, j, rs) })
+			bs = append(bs, func(s *sched.Sched) { outs[i] = c11PipelineBuf(s, j, rs, buf) })
 		}
 		return bs
 	}
